@@ -753,6 +753,19 @@ func child(mode string, in json.RawMessage) any {
 			diff = i
 			break
 		}
+		if diff < 0 && capHit && (i < len(a) || j < len(b)) {
+			// one stream ends inside such an unwinding: the surplus Aborts of the other are the same difference
+			i0, j0 := i, j
+			for i < len(a) && a[i].K == 'X' {
+				i++
+			}
+			for j < len(b) && b[j].K == 'X' {
+				j++
+			}
+			if i != i0 || j != j0 {
+				capDiffs++
+			}
+		}
 		if diff < 0 && (len(a)-i) != (len(b)-j) {
 			diff = i
 		}
